@@ -135,7 +135,7 @@ def with_names(base: Base, domain: str, forest: str) -> bytes:
 
 
 def unprotect_stored(base: Base, stored: bytes, with_key: t.Union[bool, int] = True, line_limit: int = 0, flavour: str = "sync", kdf_limit: int = 300, then_valid: bool = False,
-                     bad_load_first: t.Optional[dict] = None, cpu_limit: float = 0.0):
+                     bad_load_first: t.Optional[dict] = None, cpu_limit: float = 0.0, valid_first: t.Sequence[bytes] = ()):
     """Real ncrypt_unprotect_secret on ``stored`` with offline key material and no reachable DC.
     -> (Outcome, world, counters); with ``then_valid`` the undamaged blob is unprotected afterwards on the SAME cache and that
     outcome is returned as counters["after"]."""
@@ -159,6 +159,11 @@ def unprotect_stored(base: Base, stored: bytes, with_key: t.Union[bool, int] = T
                                                                         private_key_length=512, public_key_length=2048))
             if bad_load_first.get("then_good"):
                 offline.load_into(cache, base.rk)
+        for vb in valid_first:
+            # earlier, honest use of the SAME cache (whatever it remembers must not help a later rewritten record)
+            o = drive.classify(lambda: offline.call_api(world, flavour, "unprotect", vb, cache=cache))
+            if o.kind != "ok":
+                raise common.HarnessError(f"valid blob does not open before the rewritten one: {o.brief()} {o.exc!r}")
         cpu = common.CpuBudget(cpu_limit) if cpu_limit else contextlib.nullcontext()
         with cpu, common.KdfBudget(kdf_limit) as kb:
             if line_limit:
